@@ -68,6 +68,22 @@ def accepts_all_sizes(rep, f, facts, name):
             bad = (r, "tests the type of n: numpy integer sizes (np.int64, the result of mask.sum(), ...) are not `int` and are rejected")
         elif not only_negative and bad is None:
             bad = (r, "raises under %s" % pred_fmt(npred(r.path[-1][0], r.path[-1][1]))[:80] if r.path else "raises unconditionally")
+    # n = 0 is a valid size: max / min / argmax / argmin / ptp of the (empty) draw raise ValueError unless an `initial` is given or the size is tested first
+    RED = {"max", "min", "argmax", "argmin", "ptp", "amax", "amin", "nanmax", "nanmin", "nanargmax", "nanargmin"}
+    for c in facts:
+        if c.kind != "call" or bad is not None:
+            continue
+        nm = c.target.lstrip(".").split(".")[-1]
+        is_red = (c.callkind == "method" and nm in RED) or (c.callkind == "ext" and c.target.startswith("numpy.") and nm in RED)
+        if not is_red or "initial" in (c.kwargs or {}):
+            continue
+        operand = getattr(c, "recv", None) if c.callkind == "method" else (c.args[0] if c.args else None)
+        sized_by_n = operand is not None and any(isinstance(y, tuple) and len(y) >= 4 and y[0] == "ext" and (y[1].startswith("numpy.random.") or y[1] in ("numpy.zeros", "numpy.ones", "numpy.empty", "numpy.full"))
+                                                    and any(z == N for z in walk(y)) for y in walk(operand))
+        guarded = any(z == N or (isinstance(z, tuple) and len(z) == 3 and z[0] == "attr" and z[2] == "size") or (isinstance(z, tuple) and len(z) == 4 and z[0] == "ext" and z[1] == "len")
+                      for cnd, _ in c.path for z in walk(cnd))
+        if sized_by_n and not guarded:
+            bad = (c, "takes %s of the draw without testing its size: for n = 0 numpy raises ValueError (zero-size array to reduction operation)" % nm)
     if bad is not None:
         rep.bad("SIZE.accepts", fwhere(f, bad[0].node), "%s's callable %s" % (name, bad[1]))
     else:
